@@ -1,11 +1,13 @@
 import Driver.Proto
 import PqModel.IoFault
+import PqModel.IoFaultSrc
 
 /-! Ops of C14.
 
 * `io.run <cap|-> <failAt|-> <mode> <plan>` — run a write plan through the writer model.
   `cap`: bufio size (`-` = unbuffered). `failAt`: the byte index the sink cannot store (`-` = none).
-  `mode`: `full` (= `capacity`) | `short` | `fullsticky` | `shortsticky` | `oneshot` | `oneshotshort`. `plan`: calls separated by `/`, each a
+  `mode`: `full` (= `capacity`) | `short` | `fullsticky` | `shortsticky` | `oneshot` | `oneshotshort`, or
+  `call` | `callshort` | `callsticky` (then `failAt` is the index of the sink `Write` call that fails). `plan`: calls separated by `/`, each a
   comma list of operations (`-` = no operation):
   `w<n>` Write of n bytes, `s<n>` WriteString, `h<n>` file header (WriteString iff offset = 0),
   `r<n>` ReadFrom, `t<id>:<n>` store n bytes in store id, `d<id>:<c>` drain store id in chunks of c
@@ -18,6 +20,10 @@ import PqModel.IoFault
 * `readat.wrap <want> <n> <err 0/1>` — `readAt` of file.go: `ok <n> <err>`.
 * `io.bufio <cap> <failAt|-> <mode> <ops>` — the bufio mirror alone: ops `w<n>` `s<n>` `r<n>` `f`.
   Answer: `ok <n:err per op> <bytes held> <bytes buffered> <sticky 0/1> <sink trace>`.
+* `io.copysrc <cap|-> <failAt|-> <mode> <pre> <len> <cut|-> <eof 0/1> <checked 0/1>` — the copy site of
+  the verbatim column-chunk path: after a `Write` of `pre` bytes, `copySection` of a `len`-byte
+  section whose source stops after `cut` bytes (`-` = never) with io.EOF (`eof` = 1) or another error.
+  Answer: `ok <err 0/1> <offset> <bytes accepted by the chain> <bytes held by the sink>`.
 * `open.model <enc 0/1> <hex>` / `open.spec …` — trailer stage of OpenFile:
   `ok <footer hex>` | `err <class>`. -/
 namespace Driver.Ops.C14
@@ -80,26 +86,48 @@ def firstTrue (rs : List Bool) : Int :=
   | some i => i
   | none => -1
 
-/-- bytes the sink holds when the first reporting call returns (whole history if none reports) -/
-def heldAtFirst (cap : Option Nat) (f : Fault) (plan : List (List Op)) (first : Int) : Nat :=
-  let pre := if first < 0 then plan else plan.take (first.toNat + 1)
-  (runCalls (faultSink f) (fun s => s != "drop") (initW false cap) pre).1.u.sk.held.length
+/-- a sink of the enumeration: by byte offset (`Fault`) or by call index (`CallFault`) -/
+inductive AnyFault where
+  | off (f : Fault)
+  | call (f : CallFault)
 
-def runPlan (cap : Option Nat) (f : Fault) (plan : List (List Op)) : String :=
-  let r := runCalls (faultSink f) (fun s => s != "drop") (initW false cap) plan
+def parseAnyFault? (failAt mode : String) : Option AnyFault :=
+  match mode with
+  | "call" => (parseNat? failAt).map (fun i => .call ⟨i, false, false⟩)
+  | "callshort" => (parseNat? failAt).map (fun i => .call ⟨i, true, false⟩)
+  | "callsticky" => (parseNat? failAt).map (fun i => .call ⟨i, false, true⟩)
+  | _ => (parseFault? failAt mode).map .off
+
+/-- bytes the sink holds when the first reporting call returns (whole history if none reports) -/
+def heldAtFirst {σ} (m : SinkM σ) (s0 : σ) (cap : Option Nat) (plan : List (List Op)) (first : Int) : Nat :=
+  let pre := if first < 0 then plan else plan.take (first.toNat + 1)
+  (runCalls m (fun s => s != "drop") (initW s0 cap) pre).1.u.sk.held.length
+
+def runPlanOn {σ} (m : SinkM σ) (s0 : σ) (cap : Option Nat) (plan : List (List Op)) : String :=
+  let r := runCalls m (fun s => s != "drop") (initW s0 cap) plan
   let res := showList (fun b => if b then "1" else "0") r.2
   let first := firstTrue r.2
-  s!"ok {res} {first} {heldAtFirst cap f plan first} {r.1.u.sk.held.length} {showTrace r.1.u.sk.trace}"
+  s!"ok {res} {first} {heldAtFirst m s0 cap plan first} {r.1.u.sk.held.length} {showTrace r.1.u.sk.trace}"
+
+def runPlan (cap : Option Nat) (f : AnyFault) (plan : List (List Op)) : String :=
+  match f with
+  | .off f => runPlanOn (faultSink f) false cap plan
+  | .call f => runPlanOn (callSink f) (0, false) cap plan
 
 /-- short answer for batches: `<first reporting call> <held when it returns> <result of the last call>` -/
-def runPlanShort (cap : Option Nat) (f : Fault) (plan : List (List Op)) : String :=
-  let r := runCalls (faultSink f) (fun s => s != "drop") (initW false cap) plan
+def runPlanShortOn {σ} (m : SinkM σ) (s0 : σ) (cap : Option Nat) (plan : List (List Op)) : String :=
+  let r := runCalls m (fun s => s != "drop") (initW s0 cap) plan
   let first := firstTrue r.2
-  s!"{first} {heldAtFirst cap f plan first} {if r.2.getLast?.getD false then 1 else 0}"
+  s!"{first} {heldAtFirst m s0 cap plan first} {if r.2.getLast?.getD false then 1 else 0}"
 
-def parseFaultPair? (s : String) : Option Fault :=
+def runPlanShort (cap : Option Nat) (f : AnyFault) (plan : List (List Op)) : String :=
+  match f with
+  | .off f => runPlanShortOn (faultSink f) false cap plan
+  | .call f => runPlanShortOn (callSink f) (0, false) cap plan
+
+def parseFaultPair? (s : String) : Option AnyFault :=
   match s.splitOn ":" with
-  | [k, mode] => parseFault? k mode
+  | [k, mode] => parseAnyFault? k mode
   | _ => none
 
 /-- bufio alone: the `s` op is WriteString here -/
@@ -128,6 +156,17 @@ def runBufio (cap : Nat) (f : Fault) (ops : List String) : Option String := do
   let buffered := match u.bw with | some b => b.buf.length | none => 0
   some s!"ok {showList id outs} {u.sk.held.length} {buffered} {if u.berr then 1 else 0} {showTrace u.sk.trace}"
 
+def runCopySrcOn {σ} (m : SinkM σ) (s0 : σ) (cap : Option Nat) (pre len : Nat) (f : Option SrcFault)
+    (checked : Bool) : String :=
+  let w0 := (execOp m (initW s0 cap) (Op.write "site" (payload 0 pre))).1
+  let r := copySection m checked w0 (payload pre len) f
+  s!"ok {if r.2 then 1 else 0} {r.1.offset} {r.1.u.deliv.length} {r.1.u.sk.held.length}"
+
+def runCopySrc (cap : Option Nat) (sink : AnyFault) (pre len : Nat) (f : Option SrcFault) (checked : Bool) : String :=
+  match sink with
+  | .off s => runCopySrcOn (faultSink s) false cap pre len f checked
+  | .call s => runCopySrcOn (callSink s) (0, false) cap pre len f checked
+
 def showOpen (r : Except OpenErr Bytes) : String :=
   match r with
   | .ok ft => s!"ok {toHex ft}"
@@ -140,7 +179,7 @@ def showOpen (r : Except OpenErr Bytes) : String :=
 def handle (toks : List String) : Option String :=
   match toks with
   | ["io.run", cap, failAt, mode, plan] => some <|
-    match (if cap == "-" then some none else (parseNat? cap).map some), parseFault? failAt mode, parsePlan? plan with
+    match (if cap == "-" then some none else (parseNat? cap).map some), parseAnyFault? failAt mode, parsePlan? plan with
     | some cap, some f, some plan =>
       if cap == some 0 then "bad-op" else runPlan cap f plan
     | _, _, _ => "bad-op"
@@ -162,6 +201,13 @@ def handle (toks : List String) : Option String :=
     match parseNat? cap, parseFault? failAt mode with
     | some cap, some f => if cap == 0 then "bad-op" else (runBufio cap f (splitList ops)).getD "bad-op"
     | _, _ => "bad-op"
+  | ["io.copysrc", cap, failAt, mode, pre, len, cut, eof, checked] => some <|
+    match (if cap == "-" then some none else (parseNat? cap).map some), parseAnyFault? failAt mode,
+        parseNat? pre, parseNat? len, (if cut == "-" then some none else (parseNat? cut).map some) with
+    | some cap, some sink, some pre, some len, some cut =>
+      if cap == some 0 || !(eof == "0" || eof == "1") || !(checked == "0" || checked == "1") then "bad-op"
+      else runCopySrc cap sink pre len (cut.map (fun c => ⟨c, eof == "1"⟩)) (checked == "1")
+    | _, _, _, _, _ => "bad-op"
   | ["open.model", enc, hex] => some <|
     match parseHex? hex with
     | some b => if enc == "0" || enc == "1" then showOpen (openModel (enc == "1") b) else "bad-op"
